@@ -324,6 +324,7 @@ def run_ie(case):
                 except Exception:
                     pass
                 rec.rec.clear()
+                tap.msgs.clear()
                 op.calls.clear()
                 if ap is not None:
                     ap.calls.clear()
@@ -334,4 +335,5 @@ def run_ie(case):
     return dict(y=y.val.asnumpy().copy(), recs=rec.rec, ncalls=len(op.calls), cap=cap,
                 itcount=getattr(real, "_itcount", None), ccount=getattr(real, "_ccount", None),
                 warned=any("Error detected during operator inversion" in s for s in tap.msgs), msgs=tap.msgs,
-                modes=[c[0] for c in op.calls], apmodes=[] if ap is None else [c[0] for c in ap.calls])
+                modes=[c[0] for c in op.calls], apmodes=[] if ap is None else [c[0] for c in ap.calls],
+                calls=list(op.calls))
